@@ -197,6 +197,24 @@ Theorem C18_round_nothing_lost : forall x lim takes x', xstep x (XBuildRound lim
 Proof. intros x lim takes x' H. split; [exact (round_nothing_lost _ _ _ _ H) | exact (round_quota _ _ _ _ H)]. Qed.
 Print Assumptions C18_round_nothing_lost.
 
+(* leftover entries are retried without a new arrival (fix 7ad2a8a).  They are never lost (C18_round_nothing_lost: what is
+   not popped stays in the builder untouched).  Progress: whenever the send loop is alive and an entry sits in a
+   well-formed builder, the wake-up step XWake is enabled -- no request has to arrive -- and after it a round that builds
+   the entry is enabled, under ANY limit (free capacity is not even needed for the step to be legal: the quota is soft;
+   in the code the round pops at least `available()` > 0 normal entries, which entry is the heap's choice).  Regression
+   witness for the code before the fix: a waiting send loop builds nothing, and nothing but an arriving request or the
+   wake-up makes it ready. *)
+Theorem C18_leftover_retried :
+  (forall x c, sendloop x = true -> NoDup (inb x) ->
+     (forall c', In c' (inb x) -> e_st (ent (core x) c') = Queued) ->
+     In c (inb x) -> e_canceled (ent (core x) c) = false ->
+     exists x1 x2 lim i, xstep x XWake = Some x1 /\ core x1 = core x /\ inb x1 = inb x
+       /\ xstep x1 (XBuildRound lim (inb x)) = Some x2 /\ e_st (ent (core x2) c) = Built i /\ inb x2 = [])
+  /\ (forall x l x', ready x = false -> xstep x l = Some x' -> l <> XWake -> (forall c, l <> XFetch c) ->
+        ready x' = false /\ (forall lim takes, xstep x (XBuildRound lim takes) = None)).
+Proof. split; [exact wake_builds_leftover | exact leftover_needs_wake]. Qed.
+Print Assumptions C18_leftover_retried.
+
 (* Close and the asynchronous API (after fix 000f10e).  (1) When batchSendLoop returns it drains the channel: every
    asynchronous entry still queued there gets exactly the closed error.  (2) An asynchronous entry that is (or gets)
    queued while the client is closed can be failed by the sender's re-check.  (3) Regression witness for the code
@@ -324,3 +342,11 @@ Proof. vm_compute. auto. Qed.
 Example ex_unary : exists u, urun uinit [UCall 1; UCall 2; UReply 1; UClose; UFail 2 EClosed; UCall 3] = Some u
   /\ ucalls u 1 = UDone (Resp 1) /\ ucalls u 2 = UDone (Err EClosed) /\ ucalls u 3 = UDone (Err EClosed).
 Proof. eexists; split; [vm_compute; reflexivity|]. vm_compute. auto. Qed.
+
+(* limit 1, three requests in one build: 1 is built, 2 and 3 stay behind; the waiting send loop cannot build again until
+   the wake-up (or an arrival); after XWake the leftovers are built *)
+Example ex_leftover_wake : let x := xget (xrun xinit
+    [XSubmit 1 0 0 false; XSubmit 2 0 0 true; XSubmit 3 0 0 false; XFetch 1; XFetch 2; XFetch 3; XBuildRound (Some 1) [1]]) in
+  inb x = [3; 2] /\ ready x = false /\ xstep x (XBuildRound (Some 1) [2]) = None
+  /\ alloc (core (xget (xrun x [XWake; XBuildRound (Some 1) [2]; XWake; XBuildRound (Some 1) [3]]))) = [(3, 3); (2, 2); (1, 1)].
+Proof. vm_compute. auto. Qed.
